@@ -633,4 +633,25 @@ def rotate (s : State) (old new payer : Addr) (fee : Nat) : Option State :=
     some { s with settings := mv s.settings, custodians := mv s.custodians, whitelist := mv s.whitelist,
                   limits := mv s.limits, status := mv s.status, pool := mv s.pool, bal := bal' }
 
+/-! ## an x/ethereum `MsgRelay` (app/ante CustodyDecorator + x/ethereum/keeper/msg_server.go `Relay`)
+
+A transaction signed and paid by `relayer` carries one `MsgRelay`; its payload - an Ethereum transaction signed with the
+key of the account `key` - embeds a bank send of `amt` ukex from `key` to `to` (the message server checks that the
+embedded sender is the address the Ethereum signature recovers to). `MsgRelay.Type()` answers the type string of
+`MsgCreateCustodyRecord`: when the SIGNER has custody enabled the decorator takes that `case` and its type assertion
+fails. Nothing else of the decorator looks at a relay - in particular not the custody of `key`. -/
+def relayRefused (s : State) (relayer : Addr) : Bool :=
+  match s.settings relayer with
+  | some st => st.enabled
+  | none => false
+
+def relayTx (s : State) (relayer key to : Addr) (amt fee : Nat) : State × Res :=
+  if relayRefused s relayer then (s, .err .invType) else
+  match deductFee s relayer fee with
+  | .error e => (s, .err e)
+  | .ok s2 =>
+    match sendCoins s2.bal key to (if amt = 0 then [] else [(0, amt)]) with
+    | none => (s2, .err .funds)
+    | some b => ({ s2 with bal := b }, .ok)
+
 end Sekai.Custody
